@@ -227,6 +227,15 @@ template <class T> static void roots (uint64_t seed, int count)
         {
             T r1 = dy (), r2 = dy (), a = (T) g.rng.range (1, 3) * (g.rng.below (2) ? 1 : -1);
             if (k % 5 == 1) { int e2 = g.rng.range (6, 12); r1 = (T) std::ldexp (1.0, e2); r2 = (T) std::ldexp (1.0, -e2 + 2); }     // very different magnitudes
+            if (k % 5 == 2)
+            {   // very different magnitudes with generic significands (b*b is inexact, so the larger root carries a rounding
+                // error; the smaller one must not inherit it).  Sum and product stay exactly representable.
+                static const int bigs[] = {1000, 777, 999, 513, 641, 1023};
+                static const int smalls[] = {3, 5, 7, 1, 11};
+                r1 = (T) bigs[g.rng.below (6)] * (g.rng.below (2) ? 1 : -1);
+                r2 = (T) std::ldexp ((double) smalls[g.rng.below (5)], -(int) g.rng.range (8, sizeof (T) == 4 ? 11 : 30)) * (g.rng.below (2) ? 1 : -1);
+                a = 1;
+            }
             const char* kind = "2real";
             if (r1 == r2) kind = "double";
             T x[2] = {0, 0};
@@ -239,6 +248,23 @@ template <class T> static void roots (uint64_t seed, int count)
             T y[2] = {0, 0};
             int n2 = solveQuadratic (a, b2, c2, y);
             emitr ("quadratic", "complex", {a, b2, c2}, {}, n2, y, n2);
+            // generic coefficients (roots are not representable): judged by count and backward error
+            {
+                T ga = g.full (), gb = g.full () * (T) (1 << (int) g.rng.below (12)), gc = g.full ();
+                if (ga == 0) ga = 1;
+                T gx[2] = {0, 0};
+                int gn = solveQuadratic (ga, gb, gc, gx);
+                emitr ("quadratic", "general", {ga, gb, gc}, {}, gn, gx, gn);
+                // a moderately scaled cubic: expanded (with rounding) from three generic roots of comparable
+                // size, or from one such root and a complex pair; judged from the coefficients only
+                T q1 = (T) (1 + std::fabs ((double) g.full ())) * (g.rng.below (2) ? 1 : -1), q2 = q1 + (T) (0.5 + std::fabs ((double) g.full ())), q3 = q1 - (T) (0.75 + std::fabs ((double) g.full ()));
+                T ca = (T) (0.5 + std::fabs ((double) g.full ())), cb, cc, cd;
+                if (k % 2) { cb = -ca * (q1 + q2 + q3); cc = ca * (q1 * q2 + q1 * q3 + q2 * q3); cd = -ca * q1 * q2 * q3; }
+                else { T pr = q2, pi = (T) (0.5 + std::fabs ((double) g.full ())); cb = -ca * (q1 + 2 * pr); cc = ca * (2 * pr * q1 + pr * pr + pi * pi); cd = -ca * q1 * (pr * pr + pi * pi); }
+                T cx[3] = {0, 0, 0};
+                int cn = solveCubic (ca, cb, cc, cd, cx);
+                emitr ("cubic", "general", {ca, cb, cc, cd}, {}, cn, cx, cn);
+            }
             // degenerate leading coefficient delegates to the linear solver
             T z[2] = {0, 0}; T z1 = 0;
             int n3 = solveQuadratic ((T) 0, b, c, z); int n4 = solveLinear (b, c, z1);
